@@ -64,9 +64,14 @@ type state struct {
 	Comp        [3]bool // compiled module closed
 	Drop        [3]bool // host dropped every reference (instance handle, compiled-module handle)
 	Slots       [nSlots]uint8
-	Stale       bool // a compiled module was deleted from the live engine and no fresh modules were added since
-	GCClean     bool // nothing happened since the last forced GC
+	Fill        uint8 // bit i: filler compiled module Fi was closed
+	Stale       bool  // a compiled module was deleted from the live engine and no fresh modules were added since
+	GCClean     bool  // nothing happened since the last forced GC
 }
+
+// keyFillers: whether "some filler was closed" is part of the canonical key (thorough). In quick it is not: closing a
+// filler is then a transition executed from every state (followed by all probes) whose successor is not expanded.
+var keyFillers = false
 
 func (s state) key() string {
 	var b strings.Builder
@@ -93,6 +98,9 @@ func (s state) key() string {
 	b.WriteByte('|')
 	bit(s.Stale)
 	bit(s.GCClean)
+	if keyFillers {
+		bit(s.Fill != 0)
+	}
 	return b.String()
 }
 
@@ -122,6 +130,9 @@ func (s state) String() string {
 	if s.NoCache {
 		p = append(p, "no-cache")
 	}
+	if s.Fill != 0 {
+		p = append(p, fmt.Sprintf("fillers-closed=%04b", s.Fill))
+	}
 	if s.Stale {
 		p = append(p, "stale-engine-slot")
 	}
@@ -146,7 +157,8 @@ const (
 	kGC
 	kReenter // call X.reenter: the host function it calls performs a close while X's call is outstanding
 	kStore
-	kFailInst // instantiate a module D that imports A.tab, writes its own function into it with an active element segment, and then FAILS
+	kCloseFiller // CompiledModule.Close of filler Fi: a compiled module with code that nobody ever instantiates
+	kFailInst    // instantiate a module D that imports A.tab, writes its own function into it with an active element segment, and then FAILS
 )
 
 // how the instantiation of D fails (op.X) and through which API it is attempted (op.A)
@@ -243,6 +255,8 @@ func (o op) String() string {
 			return fmt.Sprintf("store %s -> %s (guest: %s.%s)", fnNames[d.Fn], slotNames[d.Slot], modNames[d.Exec], d.Put)
 		}
 		return fmt.Sprintf("store %s -> %s (host: %s.%s() -> %s.%s(ref))", fnNames[d.Fn], slotNames[d.Slot], modNames[d.Src], d.Get, modNames[slotHolder[d.Slot]], d.Put)
+	case kCloseFiller:
+		return fmt.Sprintf("close-compiled filler F%d (unused module)", o.X+1)
 	case kFailInst:
 		return fmt.Sprintf("instantiate-failing D{elem A.tab[0]=d; %s} via %s", failKindNames[o.X], viaNames[o.A])
 	}
@@ -278,6 +292,9 @@ func allOps() []op {
 		for v := 0; v < nVias; v++ {
 			o = append(o, op{K: kFailInst, X: k, A: v})
 		}
+	}
+	for i := 0; i < 4; i++ {
+		o = append(o, op{K: kCloseFiller, X: i})
 	}
 	return o
 }
@@ -330,6 +347,8 @@ func (s state) enabled(o op) bool {
 			return s.usable(d.Exec)
 		}
 		return s.usable(d.Src) && s.usable(slotHolder[d.Slot])
+	case kCloseFiller:
+		return s.Fill&(1<<o.X) == 0 && !s.RtClosed && !s.CacheClosed
 	case kFailInst:
 		// A must be registered (the import resolves), runtime and engine must be open: then the instantiation fails
 		// for the designed reason, after the import of A.tab was resolved
@@ -390,6 +409,8 @@ func (s state) apply(o op) state {
 	case kStore:
 		d := storeDefs[o.X]
 		n.Slots[d.Slot] = d.Fn
+	case kCloseFiller:
+		n.Fill |= 1 << o.X // (not tracked in the "stale engine slot" bit; see keyFillers)
 	case kFailInst:
 		if failWrites[o.X] {
 			n.Slots[sAt] = fDd
@@ -473,6 +494,16 @@ func (h history) String() string {
 		c = "no-cache"
 	}
 	return fmt.Sprintf("[%s;%s] %s", h.Init.Mods, c, strings.Join(p, " ; "))
+}
+
+// compileOrder: which of the two compile orders (see newWorld) the world under test of this history uses — a
+// deterministic function of the history, so that both orders occur throughout the explored space at no extra cost.
+func (h history) compileOrder() int {
+	n := len(h.Init.Mods)
+	for _, o := range h.Ops {
+		n += 3*int(o.K) + o.X + o.A + 1
+	}
+	return n & 1
 }
 
 func (h history) final() state {
